@@ -105,6 +105,8 @@ structure Params where
   unpadded : Nat → Nat → Bytes → Nat           -- Unpadded Size stored in the Index
   tailBytes : List (Nat × Nat) → Bytes         -- Index ++ Stream Footer for these Records
   alloc : Nat                                  -- outbuf allocation (lzma_block_buffer_bound64(block_size))
+  chunk : Nat := 16384                         -- in_chunk_max of worker_encode(): input given to the Block encoder per critical section
+                                               -- (any value: no theorem depends on it; the driver takes it from Gen/C08.lean)
 
 structure St where
   cfg : Cfg := {}
@@ -381,7 +383,7 @@ def wTop (P : Params) (s : St) (i : Nat) (o0 : Nat) : Option St :=
       else none
 
 /-- One iteration of the loop of worker_encode(): the critical section (progress, wait for input, snapshot) and the call of
-    the Block encoder on at most 16 KiB. `full`: the output buffer became full (incompressible). `newOut`: new *out_pos. -/
+    the Block encoder on at most `P.chunk` bytes (16 KiB in xz 5.8.1). `full`: the output buffer became full (incompressible). `newOut`: new *out_pos. -/
 def wEnc (P : Params) (s : St) (i : Nat) (full : Bool) (newOut : Nat) : Option St :=
   match s.outq[i]? with
   | none => none
@@ -399,11 +401,11 @@ def wEnc (P : Params) (s : St) (i : Nat) (full : Bool) (newOut : Nat) : Option S
           | .exit => some (leave s i e)
           | st =>
             let rem := w2.lIn - w2.inPos
-            let k := min 16384 rem
+            let k := min P.chunk rem
             if full then
               if newOut ≤ k then some (setW s i e (some { w2 with pc := .fb, inPos := w2.inPos + newOut, outPos := P.alloc }))
               else none
-            else if st = .finish ∧ rem ≤ 16384 then
+            else if st = .finish ∧ rem ≤ P.chunk then
               some (setW s i e (some { w2 with pc := .markIdle, resFinish := true, inPos := w2.lIn, outPos := (e.enc P).length }))
             else if w2.outPos ≤ newOut ∧ newOut < P.alloc then
               some (setW s i e (some { w2 with inPos := w2.inPos + k, outPos := newOut }))
